@@ -75,6 +75,8 @@ function jobs (spec, ctx) {
     zoo.ZOO.forEach((entry, i) => {
       for (let v = 0; v < 3; v++) {
         const prog = zoo.build(entry)
+        // evaluating a sub-expression several times would start asynchronous work nobody awaits (events after the run ends)
+        if (prog.meta.asyncMain || /\basync\b|\bawait\b|\bPromise\b|import\(/.test(prog.code)) continue
         const sp = require('./gen_splice').spliceRunnable(rng.fork(i * 7 + v), prog.code, !!prog.meta.module)
         if (!sp) continue
         const cfgName = ['FULL', 'RENAMED', 'FULL'][v]
